@@ -4224,7 +4224,8 @@ strtoint(const char *const str)
 {
 	char *endptr;
 	const int r = strtol(str, &endptr, 10);
-	if (*endptr) return -1;
+	/* an empty value ("options attempts", "ndots:") is not a number */
+	if (endptr == str || *endptr) return -1;
 	return r;
 }
 
